@@ -12,13 +12,23 @@ from dataflows.helpers.extended_json import (
 from .base import FileFormat, identity
 
 
+def json_number(value):
+    # JSON has no NaN / Infinity tokens: the lexical forms Table Schema reads back
+    value = float(value)
+    if value != value:
+        return 'NaN'
+    if value in (float('inf'), float('-inf')):
+        return 'INF' if value > 0 else '-INF'
+    return value
+
+
 class JSONFormat(FileFormat):
 
     SERIALIZERS = {
         'datetime': lambda d: d.strftime(DATETIME_F_FORMAT),
         'date': lambda d: d.strftime(DATE_F_FORMAT),
         'time': lambda d: d.strftime(TIME_F_FORMAT),
-        'number': float,
+        'number': json_number,
         'duration': lambda d: isodate.duration_isoformat(d),
         'geopoint': lambda d: list(map(float, d)),
         'yearmonth': lambda d: '{:04d}-{:02d}'.format(*d),
